@@ -460,7 +460,9 @@ def r4(R, m):
             except _No:
                 return False
             return all(v_ == (trip == (0, 0, 0)) for trip, v_ in truth.items())
-        R.check(any(is_origin(t) and not pol for t, pol in cfg.guards(an)), "C03.R4", REL, apps[0].lineno, "unitcell.gethkls", "(0,0,0) is skipped",
+        def off_origin(t):
+            return is_origin(ast.UnaryOp(op=ast.Not(), operand=t))       # h != 0 or k != 0 or l != 0 (the positive form of the skip)
+        R.check(any((is_origin(t) and not pol) or (off_origin(t) and pol) for t, pol in cfg.guards(an)), "C03.R4", REL, apps[0].lineno, "unitcell.gethkls", "(0,0,0) is skipped",
                 "the (000) reflection (d-star 0) is listed")
         conts = [x for x in ast.walk(fn) if isinstance(x, ast.Continue)]
         for x in conts:
